@@ -313,6 +313,18 @@ class Analyzer:
             new = self._kill_alias(new, lhs, e, path)
             new.append(self._null(e, lhs))
             return new
+        if rhs_node is not None and rhs_node.k in ("CompoundLiteralExpr", "InitListExpr"):
+            # `*obj = (T){ .member = res, ... }`: every resource named in the literal is stored in the object
+            owner = (lhs[1:].strip("()") + "->(literal)") if lhs.startswith("*") else lhs + ".(literal)"
+            for x in rhs_node.walk():
+                if x.k == "DeclRefExpr":
+                    t_ = lvalue_text(x)
+                    if t_ is not None and any(t_ in r.aliases for r in new):
+                        if _is_local_text(self.fn, owner):
+                            new = [r if t_ not in r.aliases else (lambda r2: (setattr(r2, "aliases", r.aliases | {owner}), r2)[1])(r.clone()) for r in new]
+                        else:
+                            new = self._escape_alias(new, t_, owner)
+            return new
         src_res = [r for r in new if rhs is not None and rhs in r.aliases]
         # the old content of lhs is overwritten
         if not (rhs is not None and any(lhs in r.aliases for r in src_res)):
